@@ -10,6 +10,7 @@ what they were, and modify/remove on the default registry must refuse.
 """
 
 import copy
+import itertools
 import pickle
 import time
 
@@ -532,6 +533,63 @@ def _own_values(w, i, s, before=None):
     return vals
 
 
+DEFAULT_PATHS = {
+    "default_unit_registry": lambda: default_unit_registry,
+    "exported-unit.registry": lambda: unyt.kg.registry,
+    "Unit(str).registry": lambda: Unit("km").registry,
+    "unit.copy().registry": lambda: unyt.kg.copy().registry,
+    "unit.copy(deep=False).registry": lambda: unyt.m.copy(deep=False).registry,
+    "copy.copy(unit).registry": lambda: copy.copy(unyt.s).registry,
+    "get_base_equivalent().registry": lambda: unyt.km.get_base_equivalent("mks").registry,
+    "get_cgs_equivalent().registry": lambda: unyt.km.get_cgs_equivalent().registry,
+    "in_base().units.registry": lambda: (3 * unyt.kg).in_base("mks").units.registry,
+    "in_units().units.registry": lambda: (3 * unyt.km).to("m").units.registry,
+    "product.units.registry": lambda: (unyt.unyt_array(np.array([1.0, 2.0]), "km") * unyt.s).units.registry,
+    "copy.copy(registry)": lambda: copy.copy(default_unit_registry),
+    "array.copy().units.registry": lambda: unyt.unyt_array(np.array([1.0]), "km").copy().units.registry,
+    "simplify().registry": lambda: (unyt.km / unyt.m).simplify().registry,
+    "unit**2 .registry": lambda: (unyt.km**2).registry,
+}
+
+
+def part_default_paths(ctx, shard):
+    """every way of getting at a registry object from default-bound data: whatever object comes back, modify and remove
+    through it refuse (or act on an independent table) and the library's default table stays what it was"""
+    for pname in shard:
+        for op, sym in itertools.product(("modify", "remove"), ("m", "Msun", "kg")):
+            world.reset_world()
+            ctx.count("evaluations")
+            before = float(Unit("k" + sym if sym == "m" else sym).base_value)
+            conv_before = float(unyt.unyt_quantity(1.0, "km").to("m").d)
+            try:
+                reg = DEFAULT_PATHS[pname]()
+            except Exception as e:  # noqa: BLE001
+                ctx.count("path_unavailable:" + type(e).__name__)
+                continue
+            try:
+                reg.modify(sym, 2.0) if op == "modify" else reg.remove(sym)
+                st = "accepted"
+            except Exception as e:  # noqa: BLE001
+                st = "raise:" + type(e).__name__
+            shares = reg is default_unit_registry or reg.lut is default_unit_registry.lut
+            case = {"part": "default-paths", "path": pname, "op": op, "symbol": sym}
+            ctx.outcome(("default-path", pname, op, st.split(":")[0], shares))
+            ctx.decided(("default-path", pname, op, sym))
+            base = f"C13|default-path|path={pname}|op={op}"
+            if shares and st == "accepted":
+                ctx.violation(base + "|mode=default-table-edited-through-this-object", case, "refusal", st)
+            if world.lut_delta(default_unit_registry.lut) or not world.default_table_intact():
+                ctx.violation(base + "|mode=default-table-written", case, None, str(world.lut_delta(default_unit_registry.lut))[:160])
+            try:
+                after = float(Unit("k" + sym if sym == "m" else sym).base_value)
+                conv_after = float(unyt.unyt_quantity(1.0, "km").to("m").d)
+            except Exception as e:  # noqa: BLE001
+                after, conv_after = "raise:" + type(e).__name__, None
+            if after != before or conv_after != conv_before:
+                ctx.violation(base + "|mode=default-resolution-changed", case, (before, conv_before), (after, conv_after))
+    world.reset_world()
+
+
 def run(ctx):
     t0 = time.time()
     events = events_for(ctx.tier)
@@ -542,8 +600,10 @@ def run(ctx):
         st = explore.explore(ctx, System(route1, events), depth, dev, deadline=t0 + budget)
         stats[route1] = st
         capped = capped or st["bfs_capped"]
+    harness.pmap(ctx, part_default_paths, [[p] for p in DEFAULT_PATHS])
     return {
         "coverage": {
+            "default_paths": list(DEFAULT_PATHS),
             "rule": "BFS over event histories on two custom registries + the default registry; a state is distinct by canonical digest "
             "(per-registry reference tables, table deltas, string memos, route that created registry 2, lru-touching events); "
             "a decided case = one (state, registry, probe) resolution compared with that registry's own reference table, plus "
@@ -565,6 +625,9 @@ def run(ctx):
 
 def replay(case):
     ctx = harness.Ctx(PROPERTY, "quick", 0)
+    if case.get("part") == "default-paths":
+        part_default_paths(ctx, [case["path"]])
+        return list(ctx.violations.items())
     sysm = System(case["route1"], events_for("thorough"))
     hist = tuple(tuple(e) for e in case["history"])
     w = sysm.build(hist)
